@@ -15,9 +15,9 @@ CONSTANTS
   SaveResults = {TRUE, FALSE}
   Jumps = {1}
   MaxTicks = 1
-  MaxStarts = 4
-  MaxVer = 4
-  MaxEnt = 4
+  MaxStarts = 3
+  MaxVer = 3
+  MaxEnt = 3
   MaxPurges = 2
   MaxKills = 0
   MaxDrops = 0
